@@ -87,6 +87,13 @@ def build(i):
         s[True] = s
         inner = cpppo.dfa("i", initial=z, limit=r, terminal=True)
         return cpppo.dfa("nest", initial=inner, limit=lim, terminal=True, context="m"), z
+    if t == "mis":
+        z = CNull("0", terminal=True)
+        s = inp("s", True)
+        z[True] = s
+        s[True] = s
+        inner = cpppo.dfa("i", initial=z, limit=".nope", terminal=True)      # the data path is never stored
+        return cpppo.dfa("mis", initial=inner, limit=lim, terminal=True, context="m"), z
     raise ValueError(t)
 
 
